@@ -85,3 +85,26 @@ M("c13-pushframe-keeps-nextcaller", "C13", "silent", (R, "        frame = self.n
 M("c13-benign-writeline-split", "C13", "silent", (CG, '                self.printer.writelines(\n                    "finally:", "context.caller_stack._pop_frame()", None\n                )', '                self.printer.writeline("finally:")\n                self.printer.writeline("context.caller_stack._pop_frame()")\n                self.printer.writeline(None)'))
 M("c13-benign-fstring", "C13", "silent", (CG, 'self.printer.writeline("__M_writer(%s)" % repr(node.content))', 'self.printer.writeline(f"__M_writer({node.content!r})")'))
 M("c13-benign-release-order", "C13", "silent", (CG, '                self.printer.writelines(\n                    "finally:", "__M_buf = context._pop_buffer()"\n                )', '                self.printer.writelines(\n                    "finally:", "__M_buf = context._pop_buffer()"\n                )  # same'))
+
+# ---------------------------------------------------------------- C05
+P = "mako/pyparser.py"
+A = "mako/ast.py"
+M("c05-inline-cache-flag", "C05", "def-emitter-siblings", (CG, "                namedecls,\n                buffered,\n                identifiers,", "                namedecls,\n                False,\n                identifiers,"))
+M("c05-buffered-writes", "C05", "return-convention", (CG, '            if buffered or cached:\n                self.printer.writeline("return %s" % s)', '            if cached:\n                self.printer.writeline("return %s" % s)'))
+M("c05-no-buffer-filters", "C05", "return-convention", (CG, "            if buffered and not cached:\n                s = self.create_filter_callable(\n                    self.compiler.buffer_filters, s, False\n                )", "            if False:\n                s = self.create_filter_callable(\n                    self.compiler.buffer_filters, s, False\n                )"))
+M("c05-filter-dropped", "C05", "return-convention", (CG, "            if filtered:\n                s = self.create_filter_callable(\n                    node.filter_args.args, s, False\n                )", "            if filtered and buffered:\n                s = self.create_filter_callable(\n                    node.filter_args.args, s, False\n                )"))
+M("c05-ccall-wrong-caller", "C05", "nextcaller", (CG, '"callables=ccall(__M_caller))",', '"callables=ccall(caller))",'))
+M("c05-benign-try-emitted-later", "C05", "silent", (CG, '            "callables=ccall(__M_caller))",\n            "try:",\n        )\n        self.printer.start_source(node.lineno)\n        self.printer.writelines(', '            "callables=ccall(__M_caller))",\n        )\n        self.printer.start_source(node.lineno)\n        self.printer.writelines(\n            "try:",'))
+M("c05-pop-frame-drops-nextcaller", "C05", "nextcaller", (R, "        self.nextcaller = self.pop()", "        self.pop()"))
+M("c05-parsefunc-no-kwonly", "C05", "signature-fields", (P, "        kwargnames = [arg_id(arg) for arg in node.args.kwonlyargs]", "        kwargnames = []"))
+M("c05-argexpr-no-varargs", "C05", "signature-fields", (A, '        if self.varargs:\n            namedecls.append("*" + argnames.pop(0))', '        if False:\n            namedecls.append("*" + argnames.pop(0))'))
+
+# ---------------------------------------------------------------- C17
+CA = "mako/cache.py"
+M("c17-invalidate-def-key", "C17", "key-agreement", (CA, 'self.invalidate("render_%s" % name, __M_defname="render_%s" % name)', 'self.invalidate(name, __M_defname="render_%s" % name)'))
+M("c17-own-args-first", "C17", "arg-precedence", (CG, '        cache_args = {}\n        if self.compiler.pagetag is not None:\n            cache_args.update(\n                (pa[6:], self.compiler.pagetag.parsed_attributes[pa])\n                for pa in self.compiler.pagetag.parsed_attributes\n                if pa.startswith("cache_") and pa != "cache_key"\n            )\n        cache_args.update(\n            (pa[6:], node_or_pagetag.parsed_attributes[pa])\n            for pa in node_or_pagetag.parsed_attributes\n            if pa.startswith("cache_") and pa != "cache_key"\n        )', '        cache_args = {}\n        cache_args.update(\n            (pa[6:], node_or_pagetag.parsed_attributes[pa])\n            for pa in node_or_pagetag.parsed_attributes\n            if pa.startswith("cache_") and pa != "cache_key"\n        )\n        if self.compiler.pagetag is not None:\n            cache_args.update(\n                (pa[6:], self.compiler.pagetag.parsed_attributes[pa])\n                for pa in self.compiler.pagetag.parsed_attributes\n                if pa.startswith("cache_") and pa != "cache_key"\n            )'))
+M("c17-enabled-after-impl", "C17", "enabled-guard", (CA, "        if not self.template.cache_enabled:\n            return creation_function()\n\n        return self.impl.get_or_create(", "        return self.impl.get_or_create("))
+M("c17-wrapper-calls-self", "C17", "wrapper-skeleton", (CG, '"%s, lambda:__M_%s(%s),  context, %s__M_defname=%r)"', '"%s, lambda:%s(%s),  context, %s__M_defname=%r)"'))
+M("c17-template-args-win", "C17", "arg-precedence", (CA, "            tmpl_kw = self.template.cache_args.copy()\n            tmpl_kw.update(kw)\n            self._def_regions[defname] = tmpl_kw", "            tmpl_kw = dict(kw)\n            tmpl_kw.update(self.template.cache_args)\n            self._def_regions[defname] = tmpl_kw"))
+M("c17-timeout-str", "C17", "arg-precedence", (CG, 'cache_args["timeout"] = int(eval(cache_args["timeout"]))', 'cache_args["timeout"] = eval(cache_args["timeout"])'))
+M("c17-save-after-def", "C17", "wrapper-skeleton", (CG, '        self.printer.writeline("__M_%s = %s" % (name, name))\n        cachekey', '        cachekey'), (CG, '        self.printer.writeline("def %s(%s):" % (name, ",".join(args)))\n\n        # form', '        self.printer.writeline("def %s(%s):" % (name, ",".join(args)))\n        self.printer.writeline("__M_%s = %s" % (name, name))\n\n        # form'))
